@@ -6,6 +6,7 @@ import (
 	"go/token"
 	"go/types"
 	"math/big"
+	"regexp"
 	"strings"
 )
 
@@ -938,6 +939,57 @@ func (e *Env) quant(t EQuant) (Val, error) {
 		q = "exists"
 		body = And(append(ranges, body)...)
 	}
+	// triggers: for every bound variable that indexes a heap component directly, (select C v) is a good trigger
+	// (preferring the ghost owner component of the list model); only used if every variable gets one.
+	pat := ""
+	if t.Forall {
+		var alts [][]string
+		for _, d := range decls {
+			name := strings.Fields(d[1:])[0]
+			re := regexp.MustCompile(`\(select ([^\s()]+) ` + regexp.QuoteMeta(name) + `\)`)
+			ms := re.FindAllStringSubmatch(body.S, -1)
+			seen := map[string]bool{}
+			var mine []string
+			for _, m := range ms {
+				if !seen[m[0]] {
+					seen[m[0]] = true
+					if strings.Contains(m[1], "$owner") {
+						mine = append([]string{m[0]}, mine...)
+					} else {
+						mine = append(mine, m[0])
+					}
+				}
+			}
+			if len(mine) > 6 {
+				mine = mine[:6]
+			}
+			alts = append(alts, mine)
+		}
+		ok := len(alts) > 0
+		for _, a := range alts {
+			if len(a) == 0 {
+				ok = false
+			}
+		}
+		if ok {
+			// base multi-pattern: the preferred term of every variable; variants: swap in each alternative
+			base := make([]string, len(alts))
+			for i, a := range alts {
+				base[i] = a[0]
+			}
+			pat = " :pattern (" + strings.Join(base, " ") + ")"
+			for i, a := range alts {
+				for _, alt := range a[1:] {
+					v := append([]string(nil), base...)
+					v[i] = alt
+					pat += " :pattern (" + strings.Join(v, " ") + ")"
+				}
+			}
+		}
+	}
+	if pat != "" {
+		return scalar(types.Typ[types.Bool], Term{fmt.Sprintf("(%s (%s) (! %s%s))", q, strings.Join(decls, " "), body.S, pat), SBool}), nil
+	}
 	return scalar(types.Typ[types.Bool], Term{fmt.Sprintf("(%s (%s) %s)", q, strings.Join(decls, " "), body.S), SBool}), nil
 }
 
@@ -1075,6 +1127,19 @@ func (e *Env) callExpr(t ECall) (Val, error) {
 			rt = b.T
 		}
 		return scalar(rt, Ite(c, a.One(), b.One())), nil
+	case "string": // string(b) for a byte slice b: the same term the code's conversion produces
+		v, err := e.Eval(t.Args[0])
+		if err != nil {
+			return Val{}, err
+		}
+		if v.T != nil && classify(v.T) == KString {
+			return v, nil
+		}
+		if v.T == nil || classify(v.T) != KSlice {
+			return Val{}, fmt.Errorf("string(): not a byte slice")
+		}
+		r, err := e.x.convert(e.st, v, v.T, types.Typ[types.String])
+		return r, err
 	case "now": // the ghost clock: the latest reading of time.Now()
 		return scalar(nil, u.ghost(e.st, "time.now", SInt)), nil
 	case "isfresh": // allocated after the pre-state
